@@ -35,7 +35,9 @@ class _T(object):
     @staticmethod
     def List(elem): return Ty('List', elem)      # symbolic-length, immutable view
     @staticmethod
-    def MList(elem): return Ty('MList', elem)    # symbolic-length, mutable (in a cell)
+    def MList(elem): return Ty('MList', elem)
+    @staticmethod
+    def ListObj(cls, elem): return Ty('ListObj', cls, elem)     # an object that IS a list (subclass of list) of `elem`    # symbolic-length, mutable (in a cell)
     @staticmethod
     def Opt(t): return Ty('Opt', t)              # value or None, decided by a ghost boolean
     @staticmethod
